@@ -1161,6 +1161,29 @@ pub fn run(session: &Session, prop: &'static RefProp, rule: &str) -> i32 {
         session.run_enum(prop, keyword_cases);
     }
     if prop.id == "C11" && !session.stopped() {
+        // `it ? T` for types whose text needs parentheses somewhere (a cell of a union, a function that
+        // returns a union, a function as a member), alone, as members of a union, inside arrays and tuples:
+        // the elements kept are those whose run-time type matches T (the filter works on the text of T)
+        let pre = "c1 := mut int|float 1; c2 := mut int|float 2.5; d := mut int 7; f := () -> int|float { return 1; }; g := () -> int { return 2; }; h := (x: int|float) -> int { return 3; }; xs := [1, 2.5, \"s\", c1, c2, d, f, g, h]; n := (a: [any]) -> int { return std.len(a); }; ";
+        let mut cases = vec![];
+        for (t, want) in [
+            ("mut (int|float)", 2), ("mut int", 1), ("int | mut (int|float)", 3), ("mut (int|float) | int", 3), ("float | mut (int|float) | string", 4), ("mut (int|float) | mut int", 3),
+            ("mut int | string", 2), ("() -> (int|float)", 2), ("() -> int", 1), ("() -> (int|float) | int", 3), ("int | () -> int", 2), ("(int|float) -> int", 1), ("(int|float) -> int | float", 2),
+            ("(int) -> int", 1), ("mut (int|float) | () -> (int|float) | float", 5), ("any", 9), ("mut any", 0), ("int|float|string", 3),
+        ] {
+            cases.push(json!({"kind": "probe", "sig": "C11:filter-by-parenthesised-type", "text": format!("{pre}n(xs~ ? {t} $])"), "expected": format!("value {want}")}));
+            cases.push(json!({"kind": "probe", "sig": "C11:filter-by-parenthesised-type", "text": format!("{pre}w := () -> int {{ return n(xs~ ? {t} $]); }}; w() + w() - w()"), "expected": format!("value {want}")}));
+        }
+        for (src, t, want) in [
+            ("[(c1, 1), (d, 2), (1, 1)]", "(mut (int|float), int)", 1), ("[(c1, 1), (d, 2), (1, 1)]", "(mut (int|float), int) | (int, int)", 2), ("[[c1], [d], [1]]", "[mut (int|float)]", 1),
+            ("[[c1], [d], [1]]", "[mut (int|float)] | [int]", 2), ("[struct{a := c1}, struct{a := d}]", "struct{a: mut (int|float)}", 1), ("[mut c1, mut d]", "mut mut (int|float)", 1),
+            ("[f, g]", "() -> (int|float)", 2), ("[[f], [g]]", "[() -> (int|float)]", 2), ("[[f], [g]]", "[() -> int]", 1), ("[[f], [g]]", "[() -> int] | [() -> (int|float)]", 2),
+        ] {
+            cases.push(json!({"kind": "probe", "sig": "C11:filter-by-parenthesised-type", "text": format!("{pre}n({src}~ ? {t} $])"), "expected": format!("value {want}")}));
+        }
+        session.run_enum(prop, cases);
+    }
+    if prop.id == "C11" && !session.stopped() {
         // the reducers are the folds the documentation gives, also where the running result leaves the int
         // range (the language's + and * wrap), for literal and computed sources, ints and floats
         let mut cases = vec![];
